@@ -57,6 +57,9 @@ type Workload struct {
 	TplData    map[string]string `json:"templates_data,omitempty"`
 	RepoTpl    string            `json:"repository_templates,omitempty"`
 	OutputDir  string            `json:"output_dir,omitempty"` // default "out/%l"
+	// FinalPasses: names of built-in passes a host program (cog used as a library) appends to every
+	// language's chain through Transforms.FinalPasses; one pass object serves all languages.
+	FinalPasses []string `json:"final_passes,omitempty"`
 	// ConfigYAML, when set, is used verbatim as the pipeline file (fault injection on configs).
 	ConfigYAML string `json:"config_yaml,omitempty"`
 }
@@ -89,6 +92,7 @@ func (w *Workload) Clone() *Workload {
 			c.Languages[i].Flags[k] = v
 		}
 	}
+	c.FinalPasses = append([]string(nil), w.FinalPasses...)
 	if w.Params != nil {
 		c.Params = map[string]string{}
 		for k, v := range w.Params {
@@ -393,6 +397,39 @@ type RunOpts struct {
 	OnContext   func(lang string, c languages.Context)
 	OnSchemas   func(s ast.Schemas)
 	OnLanguages func(l languages.Languages)
+	// FinalPasses is copied from the workload by the callers of RunPipeline.
+	FinalPasses []string
+}
+
+// FinalPassNames lists the built-in passes workloads may use as final passes.
+var FinalPassNames = []string{"InlineObjectsWithTypes", "AnonymousStructsToNamed", "DisjunctionToType", "NotRequiredFieldAsNullableType",
+	"FlattenDisjunctions", "DisjunctionOfAnonymousStructsToExplicit", "AnonymousEnumToExplicitType", "DisjunctionWithNullToOptional", "PrefixEnumValues"}
+
+func buildFinalPasses(names []string) compiler.Passes {
+	var out compiler.Passes
+	for _, n := range names {
+		switch n {
+		case "InlineObjectsWithTypes":
+			out = append(out, &compiler.InlineObjectsWithTypes{InlineTypes: []ast.Kind{ast.KindScalar, ast.KindMap, ast.KindArray}})
+		case "AnonymousStructsToNamed":
+			out = append(out, &compiler.AnonymousStructsToNamed{})
+		case "DisjunctionToType":
+			out = append(out, &compiler.DisjunctionToType{})
+		case "NotRequiredFieldAsNullableType":
+			out = append(out, &compiler.NotRequiredFieldAsNullableType{})
+		case "FlattenDisjunctions":
+			out = append(out, &compiler.FlattenDisjunctions{})
+		case "DisjunctionOfAnonymousStructsToExplicit":
+			out = append(out, &compiler.DisjunctionOfAnonymousStructsToExplicit{})
+		case "AnonymousEnumToExplicitType":
+			out = append(out, &compiler.AnonymousEnumToExplicitType{})
+		case "DisjunctionWithNullToOptional":
+			out = append(out, &compiler.DisjunctionWithNullToOptional{})
+		case "PrefixEnumValues":
+			out = append(out, &compiler.PrefixEnumValues{})
+		}
+	}
+	return out
 }
 
 // RunPipeline materialises nothing: cfgPath must already exist. It performs
@@ -413,6 +450,9 @@ func RunPipeline(cfgPath string, params map[string]string, opts RunOpts) (*Obser
 			pipeline, err := codegen.PipelineFromFile(cfgPath, codegen.Parameters(params))
 			if err != nil {
 				return err
+			}
+			if len(opts.FinalPasses) > 0 {
+				pipeline.Transforms.FinalPasses = buildFinalPasses(opts.FinalPasses)
 			}
 			if opts.OnPipeline != nil {
 				opts.OnPipeline(pipeline)
@@ -443,6 +483,9 @@ func RunPipeline(cfgPath string, params map[string]string, opts RunOpts) (*Obser
 			pipeline, err = codegen.PipelineFromFile(cfgPath, codegen.Parameters(params))
 			if err != nil {
 				return err
+			}
+			if len(opts.FinalPasses) > 0 {
+				pipeline.Transforms.FinalPasses = buildFinalPasses(opts.FinalPasses)
 			}
 			if opts.OnPipeline != nil {
 				opts.OnPipeline(pipeline)
